@@ -950,7 +950,7 @@ def gen_probe(rng, exhaustive_index=None):
             elif k == 8:
                 comps.append("m" * 300)
             elif k == 9:
-                comps.append(rng.pick(["a b", "é", "-rf", "$HOME", "x\ny", "COPIA1"]))
+                comps.append(rng.pick(["a b", "é", "-rf", "$HOME", "x\ny", "COPIA1", "é" * 150, "€" * 100, "\U0001F600" * 60, "x" + "é" * 120, "xy" + "€" * 80]))
             else:
                 comps.append(rng.pick(["dir", "sub", "f"]))
         sep = [rng.pick(["/", "/", "//", "///"]) for _ in range(n - 1)]
@@ -1273,9 +1273,18 @@ def gen_c12_input(rng, b3, idx, sweep=None):
             data = full[:pos]
             inval = pos < len(cbor.MAGIC) + len(cbor.req_hello()) + 4
             return {"data": data, "cls": "cut-point", "invalid": inval, "prefixes": [], "content": content}
-    k = rng.below(15)
+    k = rng.below(16)
     prefixes = []
     inval = False
+    if k == 15:
+        # a complete, harmless request, then a well-FRAMED request whose CBOR body is cut short (the length prefix
+        # matches the shortened body): whatever the decoder finds beyond the end of that body is not part of it
+        first = rng.pick([cbor.req_delete("../aaaaaaa", cbor_h(b3, b"keep me")), cbor.req_get("no/such/file/at/all"), cbor.req_delete("keepX", cbor_h(b3, b"keep me")), cbor.req_put("../zzzz", None, 0, b3.data(b""))])
+        victim = rng.pick([cbor.req_delete("keep", cbor_h(b3, b"keep me")), cbor.req_delete("keep", None), cbor.req_put("planted", None, 0, b3.data(b""))])
+        body = victim[4:]
+        cut = rng.range(max(1, len(body) - 40), len(body) - 1)
+        data = cbor.MAGIC + cbor.req_hello() + first + struct.pack(">I", cut) + body[:cut]
+        return {"data": data, "cls": "short-cbor-after-a-longer-frame", "invalid": True, "prefixes": [], "content": content, "path": spath}
     if k == 14:
         # a well-formed Put whose declared length is absurd (arithmetic on it must not wrap): some bytes follow,
         # among them a complete Put frame that must never be carried out, then the input ends
@@ -1381,6 +1390,10 @@ def gen_c12_input(rng, b3, idx, sweep=None):
         data = full
         cls = "valid-session"
     return {"data": data, "cls": cls, "invalid": inval, "prefixes": prefixes, "content": content, "path": spath}
+
+
+def cbor_h(b3, data):
+    return b3.data(data)
 
 
 def c12_verdicts(r, trace, root, inp, viol, cnt, label):
@@ -2041,6 +2054,12 @@ def _c13_gate_worker(args):
             if rng.chance(1, 4) and initial:
                 q = sorted(initial)[0]
                 files[q] = initial[q]  # identical to the hub: must be skipped
+            if c == 1 and rng.chance(1, 4):
+                # the other client's very bytes (> 256 KiB) at one path, own bytes elsewhere: a stale run then offers
+                # content the hub already holds
+                q = rng.pick(sorted(trees[0]))
+                trees[0][q] = files[q] = b"shared-big:" + q.encode() + b"#" * rng.pick([300 * 1024, 262145, 700 * 1024])
+                materialise(locs[0], trees[0])
             trees.append(files)
             d = os.path.join(wd, "local%d" % c)
             materialise(d, files)
